@@ -184,7 +184,7 @@ pub fn u16_steps_between(start: &u16, end: &u16) -> (r: (usize, Option<usize>))
 //@ fn src/structures/paging/page_table.rs | impl Step for PageTableIndex | forward_checked
 //@ as impl PageTableIndex
 //@ obligation C05 C05.PageTableIndex_Step_forward_checked.within_0_512
-//@ sub /\|\| Self::new\(idx as u16\)/ => || -> (q: Self) requires idx < 512 ensures q.0 == idx as u16 { Self::new(idx as u16) }
+//@ sub /\|\|\s*Self::new\((\w+)(\s+as\s+u16)?\)/ => || -> (q: Self) requires \1 < 512 ensures q.0 == \1 as u16 { Self::new(\1\2) }
 //@ A
     requires wf_idx(start),
     ensures
